@@ -87,16 +87,16 @@ class Apple(protocol_base.IrProtocolBase):
     def decode(self, data: list, frequency: int = 0) -> protocol_base.IRCode:
         code = protocol_base.IrProtocolBase.decode(self, data, frequency)
 
+        checksum = self._calc_checksum(code.function, code.pair_id)
+
+        if code.sub_device != 135 or checksum != code.checksum:
+            raise DecodeError('Checksum failed')
+
         if self._last_code is not None:
             if self._last_code == code:
                 return self._last_code
 
             self._last_code.repeat_timer.stop()
-
-        checksum = self._calc_checksum(code.function, code.pair_id)
-
-        if code.sub_device != 135 or checksum != code.checksum:
-            raise DecodeError('Checksum failed')
 
         self._last_code = code
         return code
